@@ -15,6 +15,9 @@ Local Open Scope string_scope.
 Lemma surface_classified : forallb classified_b surface = true.
 Proof. vm_compute. reflexivity. Qed.
 
+Lemma registered_plain : registered_plain_b = true.
+Proof. vm_compute. reflexivity. Qed.
+
 Lemma guard_impls_pinned : guard_impls_pinned_b = true.
 Proof. vm_compute. reflexivity. Qed.
 
@@ -478,3 +481,36 @@ Lemma reservations_canon_refuted :
              rget {| ac_who := 7; ac_sp := 0 |} r' = Some "appchainAdmin" /\
              rget {| ac_who := 7; ac_sp := 0 |} (free_res true admins r') = None.
 Proof. eexists. split; [vm_compute; reflexivity|]. split; vm_compute; reflexivity. Qed.
+
+(** ** whose service: the stored appchain decides *)
+Lemma self_by_stored_chain recs admins sid ch caller :
+  alookup String.eqb sid recs = Some ch ->
+  (passes_self false recs admins sid caller = true <-> alookup String.eqb ch admins = Some caller).
+Proof.
+  intro H. unfold passes_self, self_chain. rewrite H.
+  destruct (alookup String.eqb ch admins) as [a|]; split; intro E; try discriminate.
+  - apply N.eqb_eq in E. subst a. reflexivity.
+  - inversion E. subst a. apply N.eqb_refl.
+Qed.
+
+Lemma first_seg_app ch svc : has_colon ch = false -> first_seg (ch ++ ":" ++ svc) = ch.
+Proof.
+  induction ch as [|c t IH]; intro H; [reflexivity|].
+  simpl in H. apply Bool.orb_false_iff in H. destruct H as [Hc Ht].
+  specialize (IH Ht). simpl in IH. simpl. rewrite Hc, IH. reflexivity.
+Qed.
+
+(** for appchain ids without ':' both readings agree ... *)
+Lemma self_by_segment_agrees recs admins ch svc caller :
+  has_colon ch = false -> alookup String.eqb (ch ++ ":" ++ svc) recs = Some ch ->
+  passes_self true recs admins (ch ++ ":" ++ svc) caller = passes_self false recs admins (ch ++ ":" ++ svc) caller.
+Proof. intros Hc H. unfold passes_self, self_chain. rewrite H, (first_seg_app ch svc Hc). reflexivity. Qed.
+
+(** ... with appchains "org" (admin 1) and "org:chainB" (admin 2) the reading by segment lets the admin of "org" pass
+    for the other appchain's service and refuses its real admin *)
+Lemma self_by_segment_refuted :
+  let recs := [("org:chainB:svc2", "org:chainB")] in
+  let admins := [("org", 1%N); ("org:chainB", 2%N)] in
+  (passes_self true recs admins "org:chainB:svc2" 1 = true /\ passes_self true recs admins "org:chainB:svc2" 2 = false) /\
+  (passes_self false recs admins "org:chainB:svc2" 1 = false /\ passes_self false recs admins "org:chainB:svc2" 2 = true).
+Proof. vm_compute. repeat split. Qed.
